@@ -70,6 +70,24 @@ def register(claim):
           "with a reference model of the documented kind/width/value rules; exhaustive per cell.",
           "model returns UNSPEC / value-None where the statements are silent (x/0, unrepresentable int, shift >= width, mixed "
           "signedness); fold exceptions are counted as fold_rejected", "DESIGN.md 3/C09")
+    claim("C14",
+          "354 Fifo/Stack configurations (N 2..9, three element types, all delay settings, one/two contexts, both stack modes) "
+          "wrapped in a request-driven entity that applies the documented preconditions; drawn request schedules (<= 80 clocks) "
+          "with per-clock comparison of accepted pushes, popped values, empty/full/size/front against deque/list models "
+          "(validity predicates for delayed Fifos), plus breadth-first lock-step exploration to closure (= all request "
+          "sequences over a 2-symbol data alphabet) for the small configurations listed in the evidence.",
+          SIM_NOTE + "; delayed-Fifo latency is not specified and not asserted", "DESIGN.md 3/C14")
+    claim("C15",
+          "All tx/rx delay pairs 0..3 x same/two-context topologies x plain/await styles of SyncFlag and Mailbox with a trace "
+          "monitor for rules (i)-(v) of the property over drawn schedules, and exhaustive exploration over all per-clock "
+          "(want_send, want_recv[, payload]) choices to closure for delays <= 1 (quick) / <= 3 (thorough).",
+          SIM_NOTE + "; liveness only up to a drain phase", "DESIGN.md 3/C15")
+    claim("C16",
+          "Complete enumeration of the n/period/option cells of wait_for, Waiter, delayed/DelayLine, continuous_counter, "
+          "ClockDivider, ToggleSignal and debounce with exhaustive input/enable sequences of <= 8-10 clocks plus drawn long "
+          "sequences, compared per clock with counter-level reference models written from the property and docstrings.",
+          SIM_NOTE + "; ClockDivider phase and debounce output-register timing follow the upstream mock models",
+          "DESIGN.md 3/C16")
     claim("C17",
           "Hypothesis-generated type compositions (depth <= 3, all listed type kinds incl. inherited/templated records, "
           "BitFields) plus an enumerated catalogue, all bit patterns for widths <= 10, against an independent layout model: "
